@@ -237,7 +237,10 @@ def _check(cdef, fn, kind, owner, inputs, chain):
     try:
         result = fn(*args, **kwargs)
         out['outcome'] = 'return'
-        out['result'] = repr(result)[:500]
+        try:
+            out['result'] = repr(result)[:500]
+        except Exception:
+            out['result'] = '<unprintable %s>' % type(result).__name__
     except BaseException as e:
         if isinstance(e, (KeyboardInterrupt, SystemExit)) or type(e).__name__ in ('_TO', 'ReplayTimeout'):
             raise          # interrupts and the harness's own time limit are not outcomes of the function
